@@ -4,14 +4,15 @@
   Property theorems only.  Model: TmVerif/Sched; invariant and helper lemmas:
   TmVerif/Sched/{InvId, InvIdOps}.lean.
 
-  Proved here for EVERY reachable state (hence after every cycle): no two instances of a group
-  hold the same identity; a held identity is never offered; offered identities are distinct and
-  below the group's current count (so every identity acquired is in range); every instance's
-  group exists.  The end-of-cycle clauses (held identity < count, placed ⇒ holds, unplaced ⇒ holds
-  none) depend on the control flow of a cycle and are covered by the correspondence run and the
-  monitor until their theorems are registered (see DESIGN.md, claim ladder).
+  Proved for EVERY reachable state (hence after every cycle): no two instances of a group hold the
+  same identity; a held identity is never offered; offered identities are distinct and below the
+  group's current count; every instance's group exists (`C05_unique`).
+  Proved for the state after ANY cycle: every held identity is below the group's count
+  (`C05_range_after_cycle`); every placed instance of a group holds an identity and every unplaced
+  instance holds none (`C05_settled_after_cycle`, for cycles whose queues list every instance
+  exactly once — which C06 proves of the real queue — and with no lease renewal pending).
 -/
-import TmVerif.Sched.InvIdOps
+import TmVerif.Sched.Settled3
 import TmVerif.Sched.Run
 
 namespace TmVerif.Sched
@@ -64,6 +65,30 @@ theorem C05_acquire_fresh (c c' : Cell) (aid : Nat) (ch ch' : List Nat) (hc : In
         refine ⟨k, grp, hgrp, hkin, hc.1.availRange grp hm k hkin, ?_⟩
         intro b hb gb ib
         exact hc.1.disj b hb grp hm k (by rw [grp?_id hgrp]; exact gb) ib hkin
+
+/-- **C05 (in range after a cycle).** After any cycle started in a state satisfying the invariants
+    (which hold in every reachable state), every identity held by an instance is below the current
+    count of its group. -/
+theorem C05_range_after_cycle (c c' : Cell) (qs : List (List (Nat × Bool))) (ch : List Nat)
+    (hc : InvCap c) (hi : InvId2 c) (h : schedule c qs ch = .ok c') :
+    ∀ a ∈ c'.apps, ∀ k g grp, a.identity = some k → a.group = some g → c'.grp? g = some grp → k < grp.count := by
+  intro a ha k g grp hk hg hgrp
+  have hc' : InvCap c' := invCap_reach hc (schedule_reach h)
+  have hlook : c'.app? a.id = some a := by
+    unfold Cell.app?; exact find?_key_unique (·.id) c'.apps hc'.appIds a ha
+  exact idInRange_schedule hc hi.1 h a.id a k g grp hlook hk hg hgrp
+
+/-- **C05 (placed ⇒ holds, unplaced ⇒ holds none).** After any cycle whose queues list every
+    instance exactly once and with no lease renewal pending: every placed instance that belongs to
+    an identity group holds an identity, and an instance that is not placed holds none — so a free
+    identity is available to the first instance in the queue that can use it. -/
+theorem C05_settled_after_cycle (c c' : Cell) (qs : List (List (Nat × Bool))) (ch : List Nat)
+    (hc : InvCap c) (hnr : ∀ a ∈ c.apps, a.renew = false)
+    (hnd : (qs.flatten.map (·.1)).Nodup) (hcover : ∀ a ∈ c.apps, a.id ∈ qs.flatten.map (·.1))
+    (h : schedule c qs ch = .ok c') :
+    ∀ a ∈ c'.apps, (a.server.isSome = true → a.hasIdentity = true) ∧
+      (a.server = none → a.group.isSome = true → a.identity = none) :=
+  settled_schedule hc hnr hnd hcover h
 
 /-! ### Non-vacuity -/
 
